@@ -114,6 +114,7 @@ func Load(o LoadOpts) *Prog {
 	}
 	fns := ssautil.AllFunctions(prog)
 	p.NumFuncs = len(fns)
+	canonicaliseComparisons(fns, pkgs)
 	chaG := cha.CallGraph(prog)
 	if o.CHA {
 		p.CG = chaG
@@ -266,4 +267,45 @@ func (p *Prog) Func(pkgPath, name string) *ssa.Function {
 		return nil
 	}
 	return sp.Func(name)
+}
+
+// canonicaliseComparisons rewrites every comparison of the analysed module's own functions that has a constant on the
+// left and a non-constant on the right (`nil != err`, `0 == n`, `7 > used`) into the mirrored form with the constant on
+// the right. The two forms mean the same; rules that look at the shape of a comparison are written against the form
+// the repository uses throughout, and must not raise an alarm on the other (found by the mirrored-comparison control
+// variants of mutgen -equiv). Swapping the two operand fields of one instruction keeps the referrer lists valid.
+func canonicaliseComparisons(fns map[*ssa.Function]bool, roots []*packages.Package) {
+	own := map[string]bool{}
+	for _, r := range roots {
+		own[r.PkgPath] = true
+	}
+	mir := map[token.Token]token.Token{token.LSS: token.GTR, token.LEQ: token.GEQ, token.GTR: token.LSS, token.GEQ: token.LEQ, token.EQL: token.EQL, token.NEQ: token.NEQ}
+	for fn := range fns {
+		pk := fn.Package()
+		for f := fn; pk == nil && f.Parent() != nil; {
+			f = f.Parent()
+			pk = f.Package()
+		}
+		if pk == nil || pk.Pkg == nil || !own[pk.Pkg.Path()] {
+			continue
+		}
+		for _, b := range fn.Blocks {
+			for _, in := range b.Instrs {
+				bo, ok := in.(*ssa.BinOp)
+				if !ok {
+					continue
+				}
+				m, cmp := mir[bo.Op]
+				if !cmp {
+					continue
+				}
+				_, xc := bo.X.(*ssa.Const)
+				_, yc := bo.Y.(*ssa.Const)
+				if xc && !yc {
+					bo.X, bo.Y = bo.Y, bo.X
+					bo.Op = m
+				}
+			}
+		}
+	}
 }
